@@ -4,7 +4,7 @@ from hypothesis import strategies as st
 
 from harness import graphs as G
 from harness import strategies as S
-from harness.core import Acc, Violation, lib, must, must_raise
+from harness.core import Acc, HarnessError, Violation, lib, must, must_raise
 from harness.hyp import job_seed, run_property, scaled
 from props.gcommon import DTYPE_NAMES, compare_sets, pdag_codes, result_set, spoil, to_np
 
@@ -81,7 +81,100 @@ def _weighted_pdag(P, salt):
     return A
 
 
+def gadget(nh, nk, lab_mult):
+    """Rule-4 family on nh + nk + 2 scrambled nodes: i - h (all h), i - k (all k), i - j undirected; h -> k and k -> j directed;
+    H and K internally complete and undirected; h, j non-adjacent.  The DAG 'H, i, K, j' (all edges forward) has no
+    v-structure and extends it, so the closure under Meek's rules is the union graph of its extensions."""
+    p = nh + nk + 2
+    lab = [(lab_mult * t + 1) % p for t in range(p)]
+    H, i, K, j = lab[:nh], lab[nh], lab[nh + 1:nh + 1 + nk], lab[p - 1]
+    rows = [0] * p
+
+    def und(a, b):
+        rows[a] |= 1 << b
+        rows[b] |= 1 << a
+
+    def arc(a, b):
+        rows[a] |= 1 << b
+    for a in range(nh):
+        for b in range(a + 1, nh):
+            und(H[a], H[b])
+    for a in range(nk):
+        for b in range(a + 1, nk):
+            und(K[a], K[b])
+    for h in H:
+        und(i, h)
+        for k in K:
+            arc(h, k)
+    for k in K:
+        und(i, k)
+        arc(k, j)
+    und(i, j)
+    return tuple(rows), (i, j)
+
+
+def check_gadget(case):
+    """Large structured PDAGs whose expected closure comes from the reference Meek closure (validated against brute force
+    on all graphs with <= 4 nodes at start-up); the pair (i, j) must come out as i -> j."""
+    import sempler.utils as utils
+    P, (i, j) = gadget(case["nh"], case["nk"], case["mult"])
+    p = len(P)
+    A = to_np(P, case.get("dtype", "int"))
+    keep = A.copy()
+    want = G._meek_closure(P)
+    if not (want[i] >> j & 1 and not want[j] >> i & 1):
+        raise HarnessError("gadget construction: reference closure does not orient i -> j")
+    M = np.asarray(must(lib(utils.maximally_orient, A), "maximally_orient(rule-4 gadget %dx%d)" % (case["nh"], case["nk"])))
+    got = G.rows_from_matrix(M)
+    if got != want:
+        diff = [(a, b) for a in range(p) for b in range(p) if (got[a] >> b & 1) != (want[a] >> b & 1)]
+        raise Violation("meek_incomplete" if all(got[a] >> b & 1 for (a, b) in diff) else "meek_unsound",
+                        "maximally_orient on the rule-4 gadget with %d x %d chains i - h -> k -> j (p=%d) differs from the Meek closure at %d "
+                        "entries, e.g. %s; i=%d j=%d" % (case["nh"], case["nk"], p, len(diff), diff[:4], i, j))
+    D = np.asarray(must(lib(utils.pdag_to_dag, A), "pdag_to_dag(gadget)"))
+    d = G.rows_from_matrix(D)
+    if G.skeleton(d) != G.skeleton(P) or not G.is_acyclic_digraph(d) or G.vstructures(d) != G.vstructures(P) or any(
+            (G.split(P)[0][a] & ~d[a]) for a in range(p)):
+        raise Violation("extension_wrong", "pdag_to_dag on the rule-4 gadget (p=%d) is not a consistent extension" % p)
+    if not (A == keep).all():
+        raise Violation("input_modified", "maximally_orient / pdag_to_dag modified its argument")
+    return ["gadget", "inferred", "rule4", "chains_%d" % (case["nh"] * case["nk"])]
+
+
+def check_clique(case):
+    """pdag_to_dag / has_consistent_extension on an undirected complete graph on several hundred nodes minus a few edges
+    (chordal, hence extendable): the result must be acyclic on the same skeleton without any v-structure."""
+    import sempler.utils as utils
+    p = case["p"]
+    A = 1 - np.eye(p, dtype=int)
+    for (a, b) in case["missing"]:
+        A[a, b] = A[b, a] = 0
+    keep = A.copy()
+    D = np.asarray(must(lib(utils.pdag_to_dag, A), "pdag_to_dag(K_%d minus %s)" % (p, case["missing"]))) != 0
+    if D.shape != (p, p) or not np.array_equal(D | D.T, A != 0) or (D & D.T).any():
+        raise Violation("extension_wrong", "pdag_to_dag(K_%d minus %s): wrong skeleton or an edge left undirected" % (p, case["missing"]))
+    # a DAG on an (almost) complete skeleton: acyclic iff the in-degrees are compatible with a linear order
+    from props.gcommon import has_cycle_big
+    if has_cycle_big(D):
+        raise Violation("extension_wrong", "pdag_to_dag(K_%d minus %s) has a directed cycle" % (p, case["missing"]))
+    adj = A != 0
+    new_v = []
+    for (a, b) in case["missing"]:
+        common = np.where(D[a] & D[b])[0]          # a -> c <- b with a, b non-adjacent
+        if len(common):
+            new_v.append((a, int(common[0]), b))
+    if new_v:
+        raise Violation("extension_wrong", "pdag_to_dag(K_%d minus %s) creates the v-structure(s) %s" % (p, case["missing"], new_v[:3]))
+    if not np.array_equal(A, keep):
+        raise Violation("input_modified", "pdag_to_dag modified its argument")
+    return ["big_clique", "has_extension", "inferred"]
+
+
 def check(case):
+    if case["sub"] == "gadget":
+        return check_gadget(case)
+    if case["sub"] == "big_clique":
+        return check_clique(case)
     import sempler.utils as utils
     P = G.rows_from_lists(case["P"])
     p = len(P)
@@ -186,8 +279,15 @@ def _meek_case(draw):
             "salt": draw(st.integers(0, 7)), "alldags": draw(st.integers(0, 5)) == 0}
 
 
+GADGETS = [(16, 16), (8, 32), (32, 8), (4, 64), (2, 3), (3, 5), (16, 32), (1, 1), (16, 15), (64, 4)]
+
+
 def plan(tier, seed):
     jobs = []
+    for n, (nh, nk) in enumerate(GADGETS if tier == "thorough" else GADGETS[:7]):
+        jobs.append({"sub": "gadget", "seed": seed, "nh": nh, "nk": nk, "index": n, "cost": 40})
+    for n, (p, miss) in enumerate([(470, [[1, 2]])] + ([(500, [[3, 9], [9, 20]]), (330, [[0, 5]])] if tier == "thorough" else [])):
+        jobs.append({"sub": "big_clique", "seed": seed, "p": p, "missing": miss, "cost": 90})
     for p in (1, 2, 3):
         jobs.append({"sub": "pdag_exh", "p": p, "shard": 0, "nshards": 1, "seed": seed, "cost": 1})
     for k in range(16):
@@ -206,6 +306,20 @@ def plan(tier, seed):
 
 def run(job):
     acc = Acc(job["sub"])
+    if job["sub"] in ("gadget", "big_clique"):
+        if job["sub"] == "gadget":
+            p = job["nh"] + job["nk"] + 2
+            mult = next(x for x in range(p // 3 + job["seed"] % 5 + 1, p + 2) if np.gcd(x, p) == 1)
+            case = {"sub": "gadget", "nh": job["nh"], "nk": job["nk"], "mult": int(mult), "dtype": ["int", "float", "uint8"][job["index"] % 3]}
+        else:
+            case = {"sub": "big_clique", "p": job["p"], "missing": job["missing"]}
+        try:
+            acc.record(case, check(case), True, by_construction=True)
+        except Violation as v:
+            acc.record(case, [], False)
+            acc.violation(case, v)
+        acc.exhaustive = False
+        return acc
     if job["sub"] == "pdag_exh":
         _run_exh(acc, job)
     elif job["sub"] == "pdag_hyp":
